@@ -118,8 +118,9 @@ static int cond_arg_eq (const void *a, const void *b) {
 	const struct cond_arg *x = (const struct cond_arg *) a; const struct cond_arg *y = (const struct cond_arg *) b;
 	return (x->var == y->var && x->val == y->val);
 }
-static void once_f0 (void) { vf_log ("cb f start"); once_runs[0]++; vf_sched_note (); once_done[0] = 1; vf_log ("cb f end"); }
-static void once_farg (void *a) { int i = (int) (intptr_t) a; vf_log ("cb farg start"); once_runs[i]++; vf_sched_note (); once_done[i] = 1; vf_log ("cb farg end"); }
+/* the once function takes a while: several scheduling points between its start and its end */
+static void once_f0 (void) { vf_log ("cb f start"); once_runs[0]++; vf_sched_note (); vf_sched_note (); vf_sched_note (); vf_sched_note (); once_done[0] = 1; vf_log ("cb f end"); }
+static void once_farg (void *a) { int i = (int) (intptr_t) a; vf_log ("cb farg start"); once_runs[i]++; vf_sched_note (); vf_sched_note (); vf_sched_note (); vf_sched_note (); once_done[i] = 1; vf_log ("cb farg end"); }
 
 static nsync_time mk_deadline (struct op *o, char *txt, size_t n) {
 	nsync_time t;
